@@ -54,6 +54,9 @@ def tokens():
         ('LD HL,nn', (0x21, 0x48, 0x65)),
         ('DJNZ -2', (0x10, 0xFE)),
         ('CALL past RET', (0xCD, 0x04, 0x80, 0xC9)),     # CALL ORG+4 ; RET  (as first token: calls whatever follows)
+        ('RST 8 arg 06', (0xCF, 0x06)),                  # with -r the argument byte is data; without, it opens LD B,n
+        ('LD A,1', (0x3E, 0x01)),                        # after 'RST 8 arg 06' a handler-less decoder sees LD B,62 / LD BC,nn
+        ('JP text', (0xC3, 0x30, 0x75)),                 # a terminal instruction whose operand bytes are text ("0u")
     ]
 
 
@@ -252,7 +255,7 @@ FOLLOWERS = ((0x20, 0xFA, 0xC9, 0x3E, 0x18, 0x32, 0x00, 0x5C, 0xC9),
              (0x05, 0x00, 0x20, 0xF8, 0xC9, 0x21, 0x00, 0x5C, 0x36, 0xC9, 0xC9))
 
 OPTION_SETS = ((), ('-C',), ('-r',), ('-h',), ('-l',), ('-C', '-r'))
-INI_SETS = (('TextMinLengthCode=3',), ('TextMinLengthData=1',), ('TextMinLengthData=6',), ('TextChars=Helo',))
+INI_SETS = (('TextMinLengthCode=3',), ('TextMinLengthCode=1',), ('TextMinLengthCode=2',), ('TextMinLengthData=1',), ('TextMinLengthData=6',), ('TextChars=Helo',))
 
 
 def cases(tier):
@@ -429,7 +432,7 @@ def run(tier, seed):
     stats = core.run_shards(_shard, tier, seed, prop=PROPERTY)
     stats.traces = stats.counters['fed_to_sna2skool']
     meta = dict(
-        rule='images = all token sequences of length <= {} over a 22-token alphabet x ranges (whole, first token dropped, last byte dropped) x options '
+        rule='images = all token sequences of length <= {} over a 25-token alphabet x ranges (whole, first token dropped, last byte dropped) x options '
              '(none,-C,-r,-h,-l,-C -r; TextMinLength*/TextChars/Dictionary on sequences <= 2); execution-trace code maps from every token start in 5 '
              'map formats for sequences <= {}; every subset (256) of an 8-byte window as an arbitrary map on 12 fixed images; every opcode byte after 7 prefixes (none, DD, FD, ED, CB, DDCB d, FDCB d) inside a routine with 2 continuations x (none,-C); images ending at 65536 (token sequences <= 2, 22 cut-off instructions x 4 leads) x (none,-C,-r,-h). states = distinct token '
              'sets'.format(3 if tier == 'quick' else 4, 2 if tier == 'quick' else 3),
